@@ -81,6 +81,7 @@ func c02Scenarios() []c02Scn {
 		{Name: "dir-A2-B1", Specs: [2][]sess.MsgSpec{toPeer(m("A", 2), "N0BBB"), toPeer(m("B", 1), "N0AAA")}, MasterB: true, Dir: true},
 		{Name: "dir-A2-B1-one-preheld-Amaster", Specs: [2][]sess.MsgSpec{toPeer(m("A", 2), "N0BBB"), toPeer(m("B", 1), "N0AAA")}, PreHeld: [2][]int{nil, {0}}, Dir: true},
 		{Name: "dir-A3-B2-Amaster", Specs: [2][]sess.MsgSpec{toPeer(m("A", 3), "N0BBB"), toPeer(m("B", 2), "N0AAA")}, Dir: true, Thorough: true},
+		{Name: "A2-B1-lower-case-mids", Specs: [2][]sess.MsgSpec{{{MID: "amsg0000001a"}, {MID: "AmSg0000002b"}}, {{MID: "bmsg0000001a"}}}, MasterB: true},
 		{Name: "A7-B6", Specs: [2][]sess.MsgSpec{m("A", 7), m("B", 6)}, MasterB: true, Thorough: true},
 		{Name: "A2big-B0-Amaster", Specs: [2][]sess.MsgSpec{big("A", 2), nil}, Thorough: true},
 	}
